@@ -319,4 +319,33 @@ theorem gen_num_fri_layers_spec (o : Opts) (d N : Nat) (hd : d < 184467440737095
 example : Gen.FriOpts.num_fri_layers 64 8 4 31 (2 ^ 20) = 6 ∧ Gen.FriOpts.num_fri_layers_ok 64 8 4 31 (2 ^ 20) = true := by
   decide +kernel
 
+/-- ★ `fold_positions` (regenerated from fri/src/folding/mod.rs on this run, Winter/Gen/FriPos.lean) IS the
+    model's `foldPositions` for every folding factor `≠ 0` (hence the de-duplication theorems above hold of it) -/
+theorem gen_fold_positions_eq_model (ps : List Nat) (d f : Nat) (hf : f ≠ 0) :
+    foldPositions ps d f =
+      if Gen.FriPos.fold_positions_ok ps d f then some (Gen.FriPos.fold_positions ps d f) else none :=
+  C15G.gen_fold_positions_eq_model ps d f hf
+
+/-- ★ `map_positions_to_indexes` (regenerated from fri/src/utils.rs): whenever its no-panic condition holds —
+    one partition, or non-zero folding factor and partition count and every index within `usize` — the model
+    returns the regenerated list -/
+theorem gen_map_positions_eq_model (ps : List Nat) (d f np : Nat)
+    (h : np = 1 ∨ (f ≠ 0 ∧ np ≠ 0 ∧
+      ∀ p ∈ ps, (p % np) * (d / f / np) + (p - p % np) / np < 18446744073709551616)) :
+    Gen.FriPos.map_positions_to_indexes_ok ps d f np = true ∧
+    mapPositionsToIndexes ps d f np = some (Gen.FriPos.map_positions_to_indexes ps d f np) := by
+  have hk := (C15G.gen_map_positions_ok_iff ps d f np).mpr h
+  exact ⟨hk, C15G.gen_map_positions_eq_model ps d f np hk⟩
+
+/-- where no caller goes the hand model is more lenient than the code (recorded, not repaired: a zero folding
+    factor / zero partitions is excluded by `FriOptions::new` and by the callers): the Rust functions divide by
+    zero before their loops even for an empty position list, the model answers `some []` -/
+theorem position_models_lenient_witness :
+    (foldPositions [] 8 0 = some [] ∧ Gen.FriPos.fold_positions_ok [] 8 0 = false) ∧
+    (mapPositionsToIndexes [] 8 2 0 = some [] ∧ Gen.FriPos.map_positions_to_indexes_ok [] 8 2 0 = false) :=
+  ⟨C15G.fold_positions_zero_folding_witness, C15G.map_positions_zero_partitions_witness⟩
+
+example : Gen.FriPos.fold_positions [3, 11, 5, 19] 32 4 = [3, 5] ∧
+    Gen.FriPos.map_positions_to_indexes [3, 5] 32 4 2 = [5, 6] := by decide
+
 end WinterProofs.C15
